@@ -46,7 +46,7 @@ def check(ctx):
             if isinstance(n, ast.Call) and receiver(n) in ("self._send_handlers", "self._receive_handlers") and call_name(n) in ("append", "insert", "extend", "pop", "remove", "clear"):
                 n_mut += 1
                 ctx.ob("R1", f"{fi.qual}::{receiver(n).split('.')[-1]}.{call_name(n)}::under-lock", in_lock(fi, n), f"{fi.qual}: `{ast.unparse(n)}` outside `with self._lock`", loc(fi, n))
-    ctx.floor("R1", "queue mutations under the lock", n_mut, 3)
+    ctx.floor("R1", "queue mutations under the lock", n_mut, 2)
     ps = repo.own_method(SOCK, "_process_send_requests")
     dr = repo.own_method(SOCK, "dispatch_recevied_data")
 
